@@ -423,7 +423,7 @@ theorem genModel_free_ok {c : Content} (hok : OkV c) {L : Lang} (hL : L ≠ .jl)
   have hia' : noIA c.pars = true := hia
   unfold genModel progOf
   simp only [hcc, bind, Except.bind, hpop, emitBody_nil hok, pure, Except.pure, hinit, List.map_map,
-    Function.comp_def, target_id hL, zeroVars_of_ok hok, retNames_of_ok hok, zeroRows,
+    Function.comp_def, target_id hL, zeroVars_of_ok hok, retNames_of_ok hok, zeroRows, no_derivative_name_taken hok,
     List.append_assoc, hia', Bool.not_true, Bool.and_false, Bool.false_eq_true,
     if_false]
 
